@@ -150,7 +150,8 @@ def run_verus_unit(unit_name, pid, tier, out):
         per.append(dict(id=o['id'], backend='verus/z3', result='failed' if o['id'] in failed_ids else 'discharged',
                         fn_time_ms=st.get('time'), fn_rlimit=st.get('rlimit')))
     for f in relevant_failed:
-        if f['fn'] in strip or any(l.startswith(f['fn'] + ':') for l in u.lost_anchors):
+        # a lost REPLACE anchor is not a lost hint: the construct the rewrite stands for is simply not in this version of the code
+        if f['fn'] in strip or any(l.startswith(f['fn'] + ':') and ' replace anchor ' not in l and ' replacespan ' not in l for l in u.lost_anchors):
             f['hints_dropped'] = True
     return dict(unit=u, gen_path=gpath, res=res, failed=relevant_failed, per_obligation=per, canary=canary,
                 unstable=an.get('unstable', []), verus_errors=nerr, hints_dropped=sorted(strip), lost_anchors=list(u.lost_anchors))
